@@ -218,3 +218,205 @@ def _respell_val(rng, kind, v, p):
     if v[0] == "aggr" and kind == "AGG_SEL":
         return ("aggr", [_respell_val(rng, "SELECT_M", x, p) for x in v[1]])
     return v
+
+
+# ------------------------------------------------------------------ C03: single violations of a conforming population
+ABSTRACT_EXPRESS = ("ENTITY abs_e\n  ABSTRACT SUPERTYPE OF (ONEOF (abs_s));\n  abs_i : INTEGER;\nEND_ENTITY;\n\n"
+                    "ENTITY abs_s\n  SUBTYPE OF (abs_e);\nEND_ENTITY;\n\n")
+
+
+class SchemaX(G.Schema):
+    """a p21_gen schema plus one abstract supertype `abs_e` with a concrete subtype `abs_s`"""
+    def __init__(self, base):
+        ents = list(base.entities) + [G.Entity("abs_e", None, [G.Attr("abs_i", "INTEGER", False)]),
+                                      G.Entity("abs_s", "abs_e", [])]
+        G.Schema.__init__(self, base.name, ents, base.targets)
+        self.abstract = ("abs_e",)
+
+    def express(self):
+        t = G.Schema.express(self)
+        a = t.index("ENTITY abs_e")
+        b = t.index("END_SCHEMA;")
+        return t[:a] + ABSTRACT_EXPRESS + t[b:]
+
+    def simple_instantiable(self):
+        return [e.name for e in self.entities if e.name != "abs_e"]
+
+
+WRONG_KIND = {   # attribute kind -> literals of *another* kind
+    "INTEGER": ["'abc'", ".T.", "#REF", "(1)", '"0F"', "1.5X"], "DEF_INT": ["'abc'", ".T."],
+    "REAL": ["'abc'", ".T.", "#REF", "(1.5)"], "DEF_REAL": ["'abc'", ".F."], "NUMBER": ["'abc'", ".T.", "#REF"],
+    "STRING": ["5", "1.5", ".T.", "#REF", "(1)"], "BOOLEAN": ["5", "'T'", "#REF", "1.5"], "LOGICAL": ["5", "'U'", "#REF"],
+    "BINARY": ["5", "'0F'", ".T.", "#REF"], "ENUM": ["5", "'RED'", "#REF", "1.5"],
+    "ENTITY": ["5", "'#1'", ".T.", "1.5", "(#REF)"],
+    "AGG_INT": ["5", "'a'", "#REF"], "AGG_REAL": ["1.5", "'a'"], "AGG_STR": ["'a'", "5"], "AGG_ENT": ["#REF", "5"],
+    "AGG_ENTS": ["#REF", "'a'"], "AGG_SEL": ["#REF", "5"], "AGG_SELE": ["#REF", ".T."], "AGG_AGG": ["5", "'a'"],
+    "SELECT_E": ["'abc'", "5", ".T."], "SELECT_T": ["'abc'", ".T.", "#REF"], "SELECT_M": ["'abc'", ".T."],
+}
+AGG_ELEM_WRONG = {"AGG_INT": ["'x'", ".T.", "#REF"], "AGG_REAL": ["'x'", ".T."], "AGG_STR": ["5", ".T."],
+                  "AGG_ENT": ["5", "'x'"], "AGG_ENTS": ["5", ".T."]}
+
+
+class Violation:
+    def __init__(self, cls, victim, insts, detail, skip_confine=(), lost=()):
+        self.cls, self.victim, self.insts, self.detail = cls, victim, insts, detail
+        self.skip_confine = set(skip_confine) | {victim} | set(lost)     # ids whose values are not claimed
+        self.lost = set(lost)                                               # instances that no longer exist in the file
+
+    def close(self, pop):
+        """an instance that refers (at any depth, transitively) to an instance that is no longer there has a dangling
+        reference: it is not a conforming instance of the violated file either"""
+        changed = True
+        gone = set(self.lost)
+        while changed:
+            changed = False
+            for i in pop:
+                if i.id not in gone and any(r in gone for r in G.inst_refs(i)):
+                    gone.add(i.id)
+                    changed = True
+        self.skip_confine |= gone
+        return self
+
+    def key(self):
+        return f"{self.cls}:{self.detail}"
+
+
+def _set_val(inst, pi, ai, v):
+    c = inst.copy()
+    c.parts[pi][1][ai] = v
+    return c
+
+
+def violations(rng, schema, pop, per_class=1):
+    """-> [Violation]; `insts` is the file content: Inst objects or raw text for the mutated instance"""
+    out = []
+    ids = [i.id for i in pop]
+    by_type = {}
+    for i in pop:
+        for n, _ in i.parts:
+            by_type.setdefault(n, []).append(i.id)
+    free_id = max(ids) + 100
+
+    def positions(pred):
+        """(instance index, part index, attr index, Attr) of every parameter satisfying pred(attr, value)"""
+        ps = []
+        for ii, inst in enumerate(pop):
+            for pi, (n, vs) in enumerate(inst.parts):
+                for ai, (a, v) in enumerate(zip(G.part_attrs(schema, inst, pi), vs)):
+                    if pred(a, v, inst):
+                        ps.append((ii, pi, ai, a))
+        rng.shuffle(ps)
+        return ps[:per_class]
+
+    def replaced(ii, new):
+        return [new if k == ii else x for k, x in enumerate(pop)]
+
+    def where(inst, pi, ai, a):
+        n = len(inst.parts[pi][1])
+        pos = "only" if n == 1 else "first" if ai == 0 else "last" if ai == n - 1 else "middle"
+        return f"{a.kind}@{pos}" + ("@complex" if inst.is_complex else "")
+
+    someref = f"#{ids[0]}"
+    # wrong literal kind
+    for (ii, pi, ai, a) in positions(lambda a, v, i: a.kind in WRONG_KIND and v[0] != "null"):
+        lit = rng.choice(WRONG_KIND[a.kind]).replace("#REF", someref)
+        out.append(Violation("wrong_kind", pop[ii].id, replaced(ii, _set_val(pop[ii], pi, ai, ("tok", lit))),
+                             where(pop[ii], pi, ai, a) + ":" + re.sub(r"[^A-Za-z0-9#'.()\"]", "", lit)[:6]))
+    # wrong kind inside an aggregate
+    for (ii, pi, ai, a) in positions(lambda a, v, i: a.kind in AGG_ELEM_WRONG and v[0] == "aggr" and len(v[1]) >= 1):
+        v = pop[ii].parts[pi][1][ai]
+        k = rng.randrange(len(v[1]))
+        lit = rng.choice(AGG_ELEM_WRONG[a.kind]).replace("#REF", someref)
+        nv = ("aggr", [("tok", lit) if j == k else x for j, x in enumerate(v[1])])
+        out.append(Violation("wrong_kind_in_aggregate", pop[ii].id, replaced(ii, _set_val(pop[ii], pi, ai, nv)),
+                             where(pop[ii], pi, ai, a)))
+    # undeclared enumeration item
+    for (ii, pi, ai, a) in positions(lambda a, v, i: a.kind == "ENUM" and v[0] == "tok"):
+        out.append(Violation("bad_enum_item", pop[ii].id, replaced(ii, _set_val(pop[ii], pi, ai, ("tok", ".PURPLE."))),
+                             where(pop[ii], pi, ai, a)))
+    # `*` where no attribute is derived
+    for (ii, pi, ai, a) in positions(lambda a, v, i: True):
+        out.append(Violation("star_not_derived", pop[ii].id, replaced(ii, _set_val(pop[ii], pi, ai, ("derived",))),
+                             where(pop[ii], pi, ai, a)))
+    # missing required aggregate
+    for (ii, pi, ai, a) in positions(lambda a, v, i: a.kind.startswith("AGG") and not a.optional):
+        out.append(Violation("missing_required_aggregate", pop[ii].id, replaced(ii, _set_val(pop[ii], pi, ai, ("null",))),
+                             where(pop[ii], pi, ai, a)))
+    # reference to an instance that does not exist / of the wrong type
+    for (ii, pi, ai, a) in positions(lambda a, v, i: a.kind == "ENTITY" and v[0] == "ref"):
+        out.append(Violation("dangling_reference", pop[ii].id, replaced(ii, _set_val(pop[ii], pi, ai, ("ref", free_id + 7))),
+                             where(pop[ii], pi, ai, a)))
+    for (ii, pi, ai, a) in positions(lambda a, v, i: a.kind == "ENTITY" and v[0] == "ref"):
+        wrong = [x.id for x in pop if not x.is_complex and not schema.is_a(x.parts[0][0].lower(), a.target)]
+        if wrong:
+            out.append(Violation("wrong_type_reference", pop[ii].id,
+                                 replaced(ii, _set_val(pop[ii], pi, ai, ("ref", rng.choice(wrong)))), where(pop[ii], pi, ai, a)))
+    for (ii, pi, ai, a) in positions(lambda a, v, i: a.kind in ("AGG_ENT", "AGG_ENTS") and v[0] == "aggr" and len(v[1]) >= 1):
+        v = pop[ii].parts[pi][1][ai]
+        nv = ("aggr", [("ref", free_id + 9)] + list(v[1][1:]))
+        out.append(Violation("dangling_reference_in_aggregate", pop[ii].id, replaced(ii, _set_val(pop[ii], pi, ai, nv)),
+                             where(pop[ii], pi, ai, a)))
+    # SELECT value outside the select list
+    for (ii, pi, ai, a) in positions(lambda a, v, i: a.kind == "SELECT_M" and v[0] != "null"):
+        out.append(Violation("select_outside_list", pop[ii].id,
+                             replaced(ii, _set_val(pop[ii], pi, ai, ("typed", "CNT_T", ("tok", "5")))), where(pop[ii], pi, ai, a) + ":typed"))
+    for (ii, pi, ai, a) in positions(lambda a, v, i: a.kind in ("SELECT_E", "SELECT_M") and v[0] != "null"):
+        members = schema.targets[:2] if a.kind == "SELECT_E" else schema.targets[:1]
+        wrong = [x.id for x in pop if not x.is_complex and not any(schema.is_a(x.parts[0][0].lower(), m) for m in members)]
+        if wrong:
+            out.append(Violation("select_outside_list", pop[ii].id,
+                                 replaced(ii, _set_val(pop[ii], pi, ai, ("ref", rng.choice(wrong)))), where(pop[ii], pi, ai, a) + ":ref"))
+    # arity
+    # (an instance with a single parameter written `E()` is the lenient-mode "missing required value" case of C15)
+    cand2 = [k for k, i in enumerate(pop) if not i.is_complex and len(i.parts[0][1]) >= 2]
+    cand = [k for k, i in enumerate(pop) if not i.is_complex and len(i.parts[0][1]) >= 1]
+    rng.shuffle(cand)
+    rng.shuffle(cand2)
+    for ii in cand2[:per_class]:
+        c = pop[ii].copy()
+        last = G.part_attrs(schema, c, 0)[-1]
+        c.parts[0][1].pop()
+        out.append(Violation("too_few_parameters", c.id, replaced(ii, c), f"last={last.kind}" + ("?" if last.optional else "")))
+    for ii in cand[:per_class]:
+        c = pop[ii].copy()
+        c.parts[0][1].append(("tok", rng.choice(["1", "'x'", "$", "(1,2)"])))
+        nxt = "end" if ii == len(pop) - 1 else "more"
+        out.append(Violation("too_many_parameters", c.id, replaced(ii, c), f"extra={G.render_val(c.parts[0][1][-1])[:3]}:{nxt}"))
+    # keywords
+    cand = [k for k, i in enumerate(pop) if not i.is_complex]
+    rng.shuffle(cand)
+    for ii in cand[:per_class]:
+        c = pop[ii].copy()
+        c.parts[0] = ("NO_SUCH_ENTITY", c.parts[0][1])
+        out.append(Violation("unknown_keyword", c.id, replaced(ii, c), "simple", lost=[c.id]).close(pop))
+    if getattr(schema, "abstract", None):
+        out.append(Violation("abstract_keyword", free_id + 1, list(pop) + [G.Inst(free_id + 1, [("ABS_E", [("tok", "1")])])], "simple"))
+    cx = [k for k, i in enumerate(pop) if i.is_complex]
+    rng.shuffle(cx)
+    for ii in cx[:per_class]:
+        c = pop[ii].copy()
+        c.parts[rng.randrange(len(c.parts))] = ("NO_SUCH_ENTITY", [("tok", "1")])
+        out.append(Violation("unknown_keyword", c.id, replaced(ii, c), "complex-part"))
+    # duplicate id
+    if len(pop) >= 2:
+        a, b = rng.sample(range(len(pop)), 2)
+        dup = pop[b].copy()
+        dup.id = pop[a].id
+        out.append(Violation("duplicate_id", pop[a].id, list(pop) + [dup], "later-copy", skip_confine=()))
+    # unterminated instance / string
+    cand = list(range(len(pop) - 1))
+    rng.shuffle(cand)
+    for ii in cand[:per_class]:
+        raw = G.render_inst(pop[ii])[:-1]
+        out.append(Violation("unterminated_instance", pop[ii].id, replaced(ii, raw), "no-semicolon",
+                             lost=[pop[ii + 1].id]).close(pop))
+    for (ii, pi, ai, a) in positions(lambda a, v, i: a.kind == "STRING" and v[0] == "tok" and len(v[1]) > 2):
+        v = pop[ii].parts[pi][1][ai]
+        bad = _set_val(pop[ii], pi, ai, ("tok", v[1][:-1]))
+        out.append(Violation("unterminated_string", pop[ii].id, replaced(ii, bad), where(pop[ii], pi, ai, a),
+                             lost=[x.id for x in pop[ii + 1:]]).close(pop))
+    return out
+
+
+def render_violation(schema_name, v):
+    return render_file(schema_name, v.insts)
